@@ -24,8 +24,13 @@ def scen(kind, path, flmod, inherited=None):
     """Returns callable(env, api) executed inside the forked child."""
     def hold(env, api, lock=None):
         api.enter()
-        env.sleep(D)
+        for _ in range(8):          # the holder can be killed at several instants of its hold
+            env.sleep(D / 8)
         api.exit()
+
+    def gave_up(env, api):
+        # a contender that was told "not acquired" goes on living for a while
+        env.sleep(2 * D)
 
     def run(env, api):
         FileLock = flmod.FileLock
@@ -43,6 +48,8 @@ def scen(kind, path, flmod, inherited=None):
             if ok:
                 hold(env, api)
                 lk.release()
+            else:
+                gave_up(env, api)
         elif kind == 'timed_long':
             lk = FileLock(path)
             ok = lk.acquire(timeout=3 * D, poll_interval=D / 2)
@@ -50,6 +57,8 @@ def scen(kind, path, flmod, inherited=None):
             if ok:
                 hold(env, api)
                 lk.release()
+            else:
+                gave_up(env, api)
         elif kind == 'nested':
             lk = FileLock(path, reentrant=True)
             ok = lk.acquire() and lk.acquire()
@@ -136,7 +145,14 @@ def run_world(flmod, w, path, prefix=(), expect=None):
         progs = progs[1:] + progs[:1]
     vslot = len(progs) - 1 if order == 'contender_first' and len(progs) > 1 else 0
     kill = None if w['kill'] is None else (vslot, w['kill'])
-    x = px.run_processes(flmod, progs, prefix, expect, kill=kill)
+    def on_report(kids, c, kind, iarg):
+        # a contender reported "not acquired": if every other process is gone, nobody can hold the lock,
+        # so a fresh process must be able to take it right now (while that contender is still alive)
+        if kind == b'A' and iarg == 0 and all(k is c or k.state in ('done', 'dead') for k in kids):
+            if not fresh_probe(flmod, path):
+                return ('gave_up_but_keeps_the_lock', f'process slot {c.slot} ({c.name}) reported a failed acquire, '
+                                                      f'all other processes are gone, yet the lock file is locked')
+    x = px.run_processes(flmod, progs, prefix, expect, kill=kill, on_report=on_report)
     x.vslot = vslot
     # after everything: a fresh process must be able to take the lock immediately
     x.fresh_ok = fresh_probe(flmod, path)
@@ -154,6 +170,8 @@ def run_world(flmod, w, path, prefix=(), expect=None):
 def check(x, w):
     bad = []
     for ev in x.log:
+        if ev[2] == 'HOOK':
+            bad.append((ev[3][0], ev[3][1] + f'; log {x.log}'))
         if ev[2] == 'OVERLAP':
             bad.append(('two_processes_inside', f'process slot {ev[1]} entered the section at t={ev[0]} while '
                                                 f'slots {ev[3]} inside; log {x.log}'))
@@ -235,7 +253,7 @@ def plan(tier):
     for v in VICTIMS:
         # no contender: kill everywhere
         items.append(('kill', v if v != 'timed' else 'block', [], 'victim_first', 0, None))
-        cont_sets = [['block'], ['timed_long'], ['block', 'block']] if q else \
+        cont_sets = [['block'], ['timed_long'], ['timed'], ['block', 'block']] if q else \
             [['block'], ['timed_long'], ['timed'], ['block', 'block'], ['block', 'timed_long'], ['inherited']]
         for cs in cont_sets:
             for order in ('victim_first', 'contender_first'):
